@@ -61,6 +61,18 @@ RULE = (
     'rows, seeded arrangements of the other multisets; string domain on a '
     'subset); TLC '
     '(LSemTrace: LValues!Builtin / LValues!Agg) decides every table. '
+    'Composite results re-embedded: Element / l[i] / r.f / Range over lists '
+    'of lists, lists of records and records with list fields, put inside a '
+    'list literal, a record literal and a List= aggregate, compared as '
+    'structured values (UDF-produced lists and lists passing through a column '
+    'or an aggregating-expression sub-select arrive as text on the unchanged '
+    'tree: known findings F-C20-*). `x in l` as an expression (head value, '
+    'under !, inside && / ||, as a negated constraint, over lists from facts) '
+    'with null elements and the item absent / present / null, and the empty '
+    'list: two-valued like the IN_LIST UDF (assumed meaning, docs silent); a '
+    'positive `x in l` conjunct is the inclusion proposition; == != < <= > >= '
+    'isnull ! && || with null operands (three-valued), Size / Element of '
+    'lists holding nulls. '
     'Kept out of the domains as engine-defined: negative Element index, '
     'inexact `/`, `%` with negative or zero operands, ToInt64 of non-numeric '
     'text, mixed-type comparison / Least / Greatest / Sort, Split with empty '
@@ -168,6 +180,7 @@ def _UdfMain(tier, path):
 def Cases(tier):
   rng = common.Rng(PROP)
   cases = c20cases.BuiltinCases(tier, rng) + c20cases.AggCases(tier, rng)
+  cases += c20cases.NestedCases() + c20cases.InNullCases()
   return cases + semrun.Reproducers(PROP)
 
 
@@ -246,7 +259,17 @@ def Run(tier):
     if udf.get('lines') and not cnt.get(cls_name):
       never.append('udf:' + cls_name)
   for feat in ('agg_head', 'agg_expr', 'ties', 'null_row', 'one_rule',
-               'batched', 'string_domain', 'rows0', 'rows4'):
+               'batched', 'string_domain', 'rows0', 'rows4',
+               # composite results re-embedded as structured values (Element,
+               # l[i], r.f, Range inside list / record literals and List=)
+               'nested_reembed', 'nested:in_list', 'nested:in_record',
+               'nested:in_List_agg', 'nested_via:Element', 'nested_via:l[i]',
+               'nested_via:r.f', 'nested_reembed_udf',
+               # `in` as a two-valued expression over lists holding nulls;
+               # boolean built-ins with null operands
+               'in_null_expr', 'in_null:value', 'in_null:not', 'in_null:and',
+               'in_null:or', 'in_null:constraint', 'in_null:not_constraint',
+               'in_null:facts', 'bool_null_operand'):
     if not out.feature_counts.get(feat):
       never.append('feature:' + feat)
   if out.impl_status.get('skipped_big'):
